@@ -262,54 +262,21 @@ def t1(ck: Check) -> None:
 
 
 # ------------------------------------------------------------------------------------------ T2
-SWAP = {"predecessors": "successors", "successors": "predecessors", "predecessor": "successor", "successor": "predecessor",
-        "p_disjunction": "s_disjunction", "s_disjunction": "p_disjunction"}
-
-
 def t2(ck: Check) -> None:
+    """The rule generators of the two time directions are mirror images: the clause templates of the encoder
+    specialised to reverse_time=True are those of reverse_time=False with preds and succs exchanged."""
     fm = ck.prog.fm(TRAP, "_create_clingo_constraints")
-    ifs = [n for n in own_walk(fm.f.node) if isinstance(n, ast.If) and text(n.test) in ("not reverse_time", "reverse_time")]
-    if len(ifs) != 1:
-        raise AnalysisError("anchor vanished: time-direction split of _create_clingo_constraints")
-    node = ifs[0]
-    fwd, bwd = (node.body, node.orelse) if text(node.test) == "not reverse_time" else (node.orelse, node.body)
+    if "reverse_time" not in fm.f.params():
+        raise AnalysisError("anchor vanished: reverse_time parameter of _create_clingo_constraints")
+    fwd = {(t, logic.show(cnd)) for _, t, cnd, _ in _clauses(ck.prog, fm, {"problem": "min", "reverse_time": False})[0]}
+    bwd = {(t, logic.show(cnd)) for _, t, cnd, _ in _clauses(ck.prog, fm, {"problem": "min", "reverse_time": True})[0]}
 
-    class Sw(ast.NodeTransformer):
-        def visit_AnnAssign(self, n):
-            self.generic_visit(n)
-            if n.value is not None:
-                return ast.copy_location(ast.Assign([n.target], n.value), n)
-            return n
-
-        def visit_Name(self, n):
-            return ast.copy_location(ast.Name(SWAP.get(n.id, n.id), n.ctx), n)
-
-        def visit_Attribute(self, n):
-            self.generic_visit(n)
-            n.attr = SWAP.get(n.attr, n.attr)
-            return n
-
-    def norm(stmts):
-        m = ast.fix_missing_locations(ast.Module([Sw().visit(copy.deepcopy(s)) for s in stmts], []))
-        t = ast.unparse(m)
-        t = re.sub(r"list\((.*?)\)", r"\1", t)
-        return t
-
-    class Plain(ast.NodeTransformer):
-        def visit_AnnAssign(self, n):
-            self.generic_visit(n)
-            if n.value is not None:
-                return ast.copy_location(ast.Assign([n.target], n.value), n)
-            return n
-
-    def plain(stmts):
-        t = ast.unparse(ast.fix_missing_locations(ast.Module([Plain().visit(copy.deepcopy(x)) for x in stmts], [])))
-        return re.sub(r"list\((.*?)\)", r"\1", t)
-
-    ok = norm(fwd) == plain(bwd)
-    ck.ob("T2", fm, node, ok, "siphon and trap rule generators are mirror images" if ok else
+    def swap(x: str) -> str:
+        return x.replace("preds(", "\x00(").replace("succs(", "preds(").replace("\x00(", "succs(")
+    ok = {(swap(t), swap(c_)) for t, c_ in fwd} == bwd and fwd != bwd
+    ck.ob("T2", fm, fm.f.node, ok, "siphon and trap rule generators are mirror images" if ok else
           "the forward (siphon) and the time-reversed (trap) rule generators differ by more than the swap "
-          "predecessors<->successors: one time direction encodes a different problem",
+          "predecessors<->successors (or do not differ at all): one time direction encodes a different problem",
           key="time reversal symmetry")
 
 
@@ -328,21 +295,23 @@ def t3(ck: Check) -> None:
             app = [n for n in own_walk(cb.f.node) if isinstance(n, ast.Call) and isinstance(n.func, ast.Attribute) and n.func.attr == "append"]
             res = text(app[0].func.value) if app else None
             rets = [r for r in own_walk(cb.f.node) if isinstance(r, ast.Return)]
+            # the callback's answer, over all its returns: continue iff no limit or len(results) < limit
+            tr0 = logic.Translator(lambda e: text(e), numeric={"solution_limit"})
+            fs = []
             for r in rets:
-                pc = cb.pc(cb.cfgn(r))
-                v = r.value
-                if is_true(v):
-                    if not logic.implies(pc, logic.B("none:solution_limit")):
-                        probs.append("enumeration continues unconditionally although a limit may be set")
-                elif isinstance(v, ast.Compare):
-                    tr = logic.Translator(lambda e: text(e), numeric={"solution_limit"})
-                    fml = tr.f(v)
-                    want = logic.Lt(f"len({res})", "solution_limit")
-                    if not logic.equivalent(fml, want):
-                        probs.append(f"callback continues while `{text(v)}`: after the append this lets the result grow "
-                                     f"beyond the limit (expected len(results) < solution_limit)")
-                else:
-                    probs.append(f"callback returns `{text(v) if v is not None else None}`")
+                hyp = []
+                for test, pol, b in cb.facts(cb.cfgn(r)):
+                    ff = tr0.f(test)
+                    hyp.append(ff if pol else logic.Not(ff))
+                fs.append(logic.And(*hyp, tr0.f(r.value) if r.value is not None else logic.FALSE))
+            want = logic.Or(logic.B("none:solution_limit"), logic.Lt(f"len({res})", "solution_limit"))
+            try:
+                okr = bool(rets) and logic.equivalent(logic.Or(*fs), want)
+            except logic.TooBig:
+                okr = False
+            if not okr:
+                probs.append(f"callback continues while `{logic.show(logic.Or(*fs))[:120] if fs else '?'}`: after the append this "
+                             f"lets the result grow beyond the limit (expected: no limit, or len(results) < solution_limit)")
             if app and rets and any(r.lineno < app[0].lineno for r in rets):
                 probs.append("a return precedes the append")
             if not app:
@@ -414,176 +383,153 @@ def t3(ck: Check) -> None:
 
 
 # ------------------------------------------------------------------------------------------ T4
-def _pc_atoms(fm: FuncModel, n, scope: ast.AST | None):
-    """Path condition (text atoms) restricted to tests inside `scope` (e.g. the function body)."""
-    tr = logic.Translator(lambda e: text(e))
-    fs = []
-    for test, pol, b in fm.facts(n):
-        if b.loop is not None:
+def _clauses(prog, fm: FuncModel, spec: dict | None):
+    """[(call, template, condition, cfg node)], evaluator -- for the encoder specialised to `spec`."""
+    from .. import peval
+    from ..repo import Func
+    from .symstr import SymEval
+    g = fm
+    if spec:
+        node = peval.specialise(fm.f.node, {k: v for k, v in spec.items() if k in fm.f.params()})
+        g = FuncModel(prog, Func(fm.f.module, fm.f.qualname, node, fm.f.cls, fm.f.parent))
+    se = SymEval(g)
+    ctl = None
+    for n in own_walk(g.f.node):
+        if isinstance(n, ast.Assign) and isinstance(n.value, ast.Call) and callee_name(n.value) == "Control" \
+                and isinstance(n.targets[0], ast.Name):
+            ctl = n.targets[0].id
+    if ctl is None:
+        raise AnalysisError(f"anchor vanished: clingo Control object of {fm.f.qualname}")
+    out = []
+    for c in own_walk(g.f.node):
+        if isinstance(c, ast.Call) and isinstance(c.func, ast.Attribute) and c.func.attr == "add" and text(c.func.value) == ctl and c.args:
+            cn = g.cfgn(c)
+            a = c.args[-1]
+            t = a.value if isinstance(a, ast.Constant) and isinstance(a.value, str) else se.val(a, cn)
+            out.append((c, t, se.cond(cn), cn))
+    return out, se, g
+
+
+N_ = "elem(nodes(petri_net))"
+V_ = "elem(variables)"
+KT = logic.B(f"eq:'transition'|kind({N_})")
+KP = logic.B(f"eq:'place'|kind({N_})")
+EXCL = logic.Not(logic.And(KT, KP))  # a node has one kind
+
+
+def _expected_trap(problem: str, rev: bool):
+    head, body = ("succs", "preds") if rev else ("preds", "succs")
+    free = f"acc[{N_}]"
+    rows = [
+        (f"{{{{P({V_},True)}}}}.", logic.TRUE, "choice of the positive place"),
+        (f"{{{{P({V_},False)}}}}.", logic.TRUE, "choice of the negative place"),
+        (f":- {{P({V_},True)}}, {{P({V_},False)}}.", logic.TRUE, "consistency (not both places)"),
+        ("{P(elem(ensure_subspace),*)}.", logic.TRUE, "ensure_subspace fact"),
+        (":- {join(', ',map(P(elem(elem(avoid_subspaces)),*),elem(avoid_subspaces)))}.", logic.TRUE, "avoid_subspaces constraint"),
+        (f"{{join('; ',{head}({N_}))}} :- {{elem({body}({N_}))}}.",
+         logic.And(KT, logic.Not(logic.B(f"in:elem({body}({N_}))|{head}({N_})"))), "trap rule" if rev else "siphon rule"),
+    ]
+    if problem == "fix":
+        rows.append((f"{{P({V_},True)}} ; {{P({V_},False)}}.", logic.TRUE, "totality (fixed points only)"))
+    if problem == "max":
+        nonempty = logic.Lt("0", f"len({free})")
+        rows.append((f"{{join('; ',{free})}}.", nonempty, "non-triviality (max only)"))
+        rows.append(("{P(elem(optimize_source_variables),True)}; {P(elem(optimize_source_variables),False)}.",
+                     logic.And(nonempty, logic.Not(logic.B("in:elem(optimize_source_variables)|ensure_subspace"))),
+                     "source variable fixed (max only)"))
+    return rows
+
+
+def _expected_fp():
+    A = "elem(avoid_subspaces)"
+    ne = logic.Lt("0", f"len({A})")
+    return [
+        (f"{{{{P({V_},True)}}}}.", logic.TRUE, "choice of the positive place"),
+        (f"{{{{P({V_},False)}}}}.", logic.TRUE, "choice of the negative place"),
+        (f":- {{P({V_},True)}}, {{P({V_},False)}}.", logic.TRUE, "consistency"),
+        (f"{{P({V_},True)}} ; {{P({V_},False)}}.", logic.TRUE, "totality"),
+        (f":- {{join('; ',preds({N_}))}}.", KT, "no transition enabled"),
+        ("{P(elem(ensure_subspace),*)}.", logic.TRUE, "ensure_subspace fact"),
+        (f":- {{join(', ',map(P(elem({A}),*),{A}))}}.", ne, "avoid_subspaces constraint"),
+        ("#false.", logic.Not(ne), "empty avoided space excludes everything"),
+    ]
+
+
+def _match(ck: Check, fm: FuncModel, rows, clauses, label: str, report_ok: bool) -> None:
+    """Every ctl.add is one of the expected clauses and is emitted exactly under its condition; none is missing."""
+    seen = set()
+    for c, t, cnd, cn in clauses:
+        row = next((r for r in rows if r[0] == t), None)
+        if row is None:
+            ck.ob("T4", fm, c, False, f"{label}: clause `{t}` is not part of the encoding (unrecognised ctl.add)",
+                  key=f"{label} unrecognised {t[:80]}")
             continue
-        f = tr.f(test)
-        fs.append(f if pol else logic.Not(f))
-    return logic.And(*fs)
+        seen.add(row[0])
+        try:
+            ok = logic.equivalent(logic.And(cnd, EXCL), logic.And(row[1], EXCL))
+        except logic.TooBig:
+            ok = False
+        if report_ok or not ok:
+            ck.ob("T4", fm, c, ok, f"{row[2]}: emitted exactly when required" if ok else
+                  f"{label}: {row[2]} (`{t}`) is emitted under `{logic.show(cnd)}`, the encoding requires `{logic.show(row[1])}`",
+                  key=f"{row[2]}" + ("" if ok else f" [{label}]"))
+    for r in rows:
+        if r[0] not in seen:
+            ck.ob("T4", fm, fm.f.node, False, f"{label}: the encoding no longer emits: {r[2]} (`{r[0]}`)", key=f"missing {r[2]} [{label}]")
 
 
-def _tmpl(c: ast.Call) -> str:
-    a = c.args[-1] if c.args else None
-    if isinstance(a, ast.JoinedStr):
-        out = ""
-        for x in a.values:
-            out += x.value if isinstance(x, ast.Constant) else "{" + text(x.value) + "}"
-        return out
-    if isinstance(a, ast.Constant):
-        return str(a.value)
-    return text(a) if a is not None else ""
+def _acc_ok(ck: Check, fm: FuncModel, se, g: FuncModel, label: str) -> None:
+    """free places = places of variables outside ensure_subspace."""
+    tok = f"acc[{N_}]"
+    probs = []
+    if tok not in se.accs:
+        probs.append("the list of free places is not collected from the nodes of the Petri net")
+    else:
+        want = logic.And(KP, logic.Not(logic.B(f"in:idx(p2v({N_}),0)|ensure_subspace")))
+        for cn, el in se.accs[tok]:
+            pc = se.cond(cn)
+            if not logic.equivalent(logic.And(pc, EXCL), logic.And(want, EXCL)):
+                probs.append(f"a place counts as free under `{logic.show(pc)}`, expected: place of a variable outside ensure_subspace "
+                             f"(otherwise the non-triviality clause is satisfied by the enclosing space itself, or real sub-spaces "
+                             f"are excluded)")
+    ck.ob("T4", fm, fm.f.node, not probs, "; ".join(probs) if probs else
+          "free places = places of variables outside ensure_subspace; non-triviality = their disjunction", key="free places")
+
+
+def _loops_complete(ck: Check, fm: FuncModel, g: FuncModel, se, label: str) -> None:
+    """No loop that feeds the encoding is left early (except after `#false.`)."""
+    for n in own_walk(g.f.node):
+        if isinstance(n, ast.For):
+            it = se.val(n.iter, g.cfg.loop_header[n])
+            if not any(k in it for k in ("variables", "ensure_subspace", "avoid_subspaces", "nodes", "preds(", "succs(")):
+                continue
+            bad = []
+            for s_ in ast.walk(n):
+                if isinstance(s_, ast.Break) and g.cfg.enclosing_loops(g.cfgn(s_))[0] is n:
+                    prev = [c for c in ast.walk(n) if isinstance(c, ast.Call) and c.args and isinstance(c.args[-1], ast.Constant)
+                            and c.args[-1].value == "#false." and g.cfgn(s_).id in g.cfg.reach_avoiding(g.cfgn(c), [])]
+                    if not prev:
+                        bad.append(s_.lineno)
+            ck.ob("T4", fm, n, not bad, f"every element of {it} is encoded" if not bad else
+                  f"{label}: the loop over `{it}` is left early (line {bad}): the remaining elements are not encoded",
+                  key=f"for over {it[:60]}")
 
 
 def t4(ck: Check) -> None:
     prog = ck.prog
-    P_MAX = logic.B("eq:'max'|problem")
-    P_FIX = logic.B("eq:'fix'|problem")
-    FREE = logic.Lt("0", "len(free_places)")
-    REV = logic.B("T:reverse_time")
-    KP = logic.B("eq:'place'|kind")
-    KT = logic.B("eq:'transition'|kind")
-    # ---- trap-space encoder
     fm = prog.fm(TRAP, "_create_clingo_constraints")
-    table = [
-        (r"^\{\{p_name\}\}\.$", logic.TRUE, "choice of the positive place"),
-        (r"^\{\{n_name\}\}\.$", logic.TRUE, "choice of the negative place"),
-        (r"^:- \{p_name\}, \{n_name\}\.$", logic.TRUE, "consistency (not both places)"),
-        (r"^\{p_name\} ; \{n_name\}\.$", P_FIX, "totality (fixed points only)"),
-        (r"^\{variable_to_place\(fixed_var, positive\)\}\.$", logic.TRUE, "ensure_subspace fact"),
-        (r"^:- \{fixed_vars\}\.$", logic.TRUE, "avoid_subspaces constraint"),
-        (r"^\{p_disjunction\} :- \{successor\}\.$",
-         logic.And(logic.Not(KP), KT, logic.Not(REV), logic.Not(logic.B("in:successor|predecessors"))), "siphon rule"),
-        (r"^\{s_disjunction\} :- \{predecessor\}\.$",
-         logic.And(logic.Not(KP), KT, REV, logic.Not(logic.B("in:predecessor|successors"))), "trap rule"),
-        (r"^\{max_condition\}\.$", logic.And(P_MAX, FREE), "non-triviality (max only)"),
-        (r"^\{variable_to_place\(variable, True\)\}; \{variable_to_place\(variable, False\)\}\.$",
-         logic.And(P_MAX, FREE, logic.Not(logic.B("in:variable|ensure_subspace"))), "source variable fixed (max only)"),
-    ]
-    _check_adds(ck, fm, table)
-    # free places = places of variables not in ensure_subspace
-    f = fm.f
-    app = [n for n in own_walk(f.node) if isinstance(n, ast.Call) and isinstance(n.func, ast.Attribute) and n.func.attr == "append"
-           and text(n.func.value) == "free_places"]
-    probs = []
-    if len(app) != 1:
-        probs.append("free_places is filled at an unexpected number of sites")
-    else:
-        pc = _pc_atoms(fm, fm.cfgn(app[0]), None)
-        want = logic.And(KP, logic.Not(logic.B("in:place_to_variable(node)[0]|ensure_subspace")))
-        if not logic.equivalent(pc, want):
-            probs.append(f"a place counts as free under `{logic.show(pc)}`, expected: place of a variable outside ensure_subspace "
-                         f"(otherwise the non-triviality clause is satisfied by the enclosing space itself, or real sub-spaces "
-                         f"are excluded)")
-        if text(app[0].args[0]) != "node":
-            probs.append("free_places does not collect the place itself")
-    mc = [n for n in own_walk(f.node) if isinstance(n, ast.Assign) and text(n.targets[0]) == "max_condition"]
-    if not mc or "free_places" not in text(mc[0].value) or "; " not in text(mc[0].value):
-        probs.append("non-triviality clause is not the disjunction of the free places")
-    ck.ob("T4", fm, app[0] if app else f.node, not probs, "; ".join(probs) if probs else
-          "free places = places of variables outside ensure_subspace; non-triviality = their disjunction", key="free places")
-    # avoid clause ranges over all literals
-    _check_avoid_comp(ck, fm)
-    # loops range over everything
-    _check_loops(ck, fm, {"variables": "every variable gets its places", "ensure_subspace": "every ensured variable",
-                          "avoid_subspaces": "every avoided space", "optimize_source_variables": "every source variable"})
-    # ---- fixed-point encoder
+    first = True
+    for problem in ("min", "max", "fix"):
+        for rev in (False, True):
+            label = f"problem={problem}, reverse_time={rev}"
+            clauses, se, g = _clauses(prog, fm, {"problem": problem, "reverse_time": rev})
+            # obligations are reported once per clause kind (first specialisation that has it); failures for every one
+            _match(ck, fm, _expected_trap(problem, rev), clauses, label, report_ok=(problem, rev) in (("max", False), ("fix", False), ("min", True)))
+            if problem == "max" and not rev:
+                _acc_ok(ck, fm, se, g, label)
+                _loops_complete(ck, fm, g, se, label)
+            first = False
     fp = prog.fm(TRAP, "_create_clingo_fixed_point_constraints")
-    NE = logic.Lt("0", "len(to_avoid)")
-    table2 = [
-        (r"^\{\{p_name\}\}\.$", logic.TRUE, "choice of the positive place"),
-        (r"^\{\{n_name\}\}\.$", logic.TRUE, "choice of the negative place"),
-        (r"^:- \{p_name\}, \{n_name\}\.$", logic.TRUE, "consistency"),
-        (r"^\{p_name\} ; \{n_name\}\.$", logic.TRUE, "totality"),
-        (r"^:- \{pred_rhs\}\.$", logic.And(logic.Not(KP), KT), "no transition enabled"),
-        (r"^\{place_name\}\.$", logic.TRUE, "ensure_subspace fact"),
-        (r"^:- \{fixed_vars\}\.$", NE, "avoid_subspaces constraint"),
-        (r"^#false\.$", logic.Not(NE), "empty avoided space excludes everything"),
-    ]
-    _check_adds(ck, fp, table2)
-    _check_avoid_comp(ck, fp)
-    _check_loops(ck, fp, {"variables": "every variable gets its places", "ensure_subspace": "every ensured variable",
-                          "avoid_subspaces": "every avoided space"})
-    pr = [n for n in own_walk(fp.f.node) if isinstance(n, ast.Assign) and text(n.targets[0]) == "pred_rhs"]
-    okp = bool(pr) and "preds" in text(pr[0].value) and "; " in text(pr[0].value)
-    pd = [n for n in own_walk(fp.f.node) if isinstance(n, ast.Assign) and text(n.targets[0]) == "preds"]
-    okp = okp and bool(pd) and ".predecessors(node)" in text(pd[0].value)
-    ck.ob("T4", fp, pr[0] if pr else fp.f.node, okp, "deadlock clause = disjunction... negated conjunction of all input places" if okp else
-          "the 'no transition enabled' clause is not built from all predecessors of the transition", key="deadlock clause")
-
-
-def _check_adds(ck: Check, fm: FuncModel, table) -> None:
-    f = fm.f
-    seen = set()
-    for c in own_walk(f.node):
-        if not (isinstance(c, ast.Call) and isinstance(c.func, ast.Attribute) and c.func.attr == "add" and text(c.func.value) == "ctl"):
-            continue
-        t = _tmpl(c)
-        row = next((r for r in table if re.match(r[0], t)), None)
-        if row is None:
-            ck.ob("T4", fm, f.stmt_of(c), False, f"clause `{t}` is not part of the encoding (unrecognised ctl.add)")
-            continue
-        seen.add(row[0])
-        pc = _pc_atoms(fm, fm.cfgn(c), None)
-        try:
-            ok = logic.equivalent(pc, row[1])
-        except logic.TooBig:
-            ok = False
-        ck.ob("T4", fm, f.stmt_of(c), ok, f"{row[2]}: emitted exactly when required" if ok else
-              f"{row[2]} (`{t}`) is emitted under `{logic.show(pc)}`, the encoding requires `{logic.show(row[1])}`")
-    for r in table:
-        if r[0] not in seen:
-            ck.ob("T4", fm, f.node, False, f"the encoding no longer emits: {r[2]}", key=f"missing {r[2]}")
-
-
-def _check_avoid_comp(ck: Check, fm: FuncModel) -> None:
-    comps = [n for n in own_walk(fm.f.node) if isinstance(n, ast.Assign) and text(n.targets[0]) == "fixed_list"]
-    probs = []
-    if len(comps) != 1 or not isinstance(comps[0].value, ast.ListComp):
-        probs.append("avoid clause literals not built by one comprehension")
-    else:
-        lc = comps[0].value
-        g = lc.generators[0]
-        if g.ifs:
-            probs.append("some literals of an avoided space are dropped (filtered comprehension): the avoided region grows")
-        if text(g.iter) != "to_avoid":
-            probs.append(f"literals range over `{text(g.iter)}`")
-        else:
-            at = fm.cfgn(comps[0])
-            for d in fm.cfg.reaching_defs("to_avoid", at):
-                if not (d.kind == "for" and text(d.ast.iter) == "avoid_subspaces"):
-                    probs.append(f"line {d.lineno}: the avoided space is rewritten before its constraint is built "
-                                 f"(`{text(d.ast)[:60] if d.ast is not None else ''}`): a different region is excluded")
-            for d in fm.cfg.reaching_defs("avoid_subspaces", at):
-                ok = d.kind == "entry" or (d.kind == "stmt" and isinstance(d.ast, ast.Assign) and is_empty_list(d.ast.value))
-                if not ok:
-                    probs.append(f"line {d.lineno}: the list of avoided spaces is rewritten")
-        if not (isinstance(lc.elt, ast.Call) and callee_name(lc.elt) == "variable_to_place" and text(lc.elt.args[0]) == text(g.target)):
-            probs.append("literal is not the place of the avoided variable")
-    j = [n for n in own_walk(fm.f.node) if isinstance(n, ast.Assign) and text(n.targets[0]) == "fixed_vars"]
-    if not j or "', '.join(fixed_list)" not in text(j[0].value):
-        probs.append("literals are not conjoined with ', '")
-    ck.ob("T4", fm, comps[0] if comps else fm.f.node, not probs, "; ".join(probs) if probs else
-          "avoid constraint = conjunction of all literals of the avoided space", key="avoid literals")
-
-
-def _check_loops(ck: Check, fm: FuncModel, iters: dict) -> None:
-    for n in own_walk(fm.f.node):
-        if isinstance(n, ast.For):
-            it = text(n.iter)
-            base = it.replace(".items()", "")
-            if base in iters:
-                skips = [s for s in ast.walk(n) if isinstance(s, (ast.Continue, ast.Break))]
-                bad = []
-                for s in skips:
-                    if isinstance(s, ast.Break):
-                        # allowed only after #false
-                        prev = [c for c in ast.walk(n) if isinstance(c, ast.Call) and _tmpl(c) == "#false." and c.lineno < s.lineno]
-                        if prev:
-                            continue
-                    bad.append(s.lineno)
-                ck.ob("T4", fm, n, not bad, iters[base] if not bad else
-                      f"the loop over `{base}` skips elements (line {bad})", key=f"for over {base}")
+    clauses, se, g = _clauses(prog, fp, None)
+    _match(ck, fp, _expected_fp(), clauses, "fixed points", report_ok=True)
+    _loops_complete(ck, fp, g, se, "fixed points")
